@@ -241,6 +241,8 @@ CONFIGS = {
     "set-set-wrongcode": dict(modes=("set", "set"), wrong_code=True),
     "alloc-input-wrongwords": dict(modes=("allocate", "input"), wrong_code=True),
     "set-set-rightcode": dict(modes=("set", "set"), nmsg=(1, 2)),
+    # the same code under duplicated / reordered delivery (e.g. the peer's VERSION replayed ahead of its PAKE after a re-open)
+    "set-set-rightcode-reorder": dict(modes=("set", "set"), nmsg=(1, 1), adversary=("dup",)),
     "alloc-input-rightcode": dict(modes=("allocate", "input")),
     "set-set-appids": dict(modes=("set", "set"), appids=("app1", "app2")),
 }
@@ -274,6 +276,16 @@ class Orders(Explore):
             ka, kb = evs(a, "key"), evs(b, "key")
             if ka and kb and ka[0][1] != kb[0][1]:
                 out.append(("session keys differ although code and application id are the same", ""))
+            for c in sim.cl:
+                ce = c.closed_events()
+                if ce and ce[0][1] == "WrongPasswordError":
+                    out.append(("WrongPasswordError although code and application id are the same", c.name))
+            ready = all(sim.api[j]["code"] and (sim.modes[j] != "input" or sim.api[j]["words"]) and not sim.api[j]["closed"] for j in range(2))
+            if when == "settled" and ready and all(c.conn is not None for c in sim.cl):
+                # both sides entered the same code, stayed open and connected, and the network delivered everything: agreement is reached
+                for c in sim.cl:
+                    if not evs(c, "verifier") or not evs(c, "versions"):
+                        out.append(("same code and application id, everything delivered, but no verifier/versions reported", "%s: %r" % (c.name, [e[0] for e in c.ev])))
         return out
 
     def classify(self, label):
